@@ -103,7 +103,7 @@ PROPS = {
         "level": "exploration",
         "jobs": [
             rapid("lifecycle", "^TestC10$", {"checks": 30, "steps": 35, "shards": 8, "timeout": 900, "shrinktime": "30s"},
-                  {"checks": 500, "steps": 60, "shards": 14, "timeout": 5000, "shrinktime": "120s"}),
+                  {"checks": 500, "steps": 60, "shards": 14, "timeout": 7000, "shrinktime": "120s"}),
         ],
     },
     "C09": {
@@ -111,7 +111,7 @@ PROPS = {
         "jobs": [
             rapid("regress", "^TestC09Regress$", {"checks": 1, "timeout": 300}, {"checks": 1, "timeout": 300}),
             rapid("pending", "^TestC09$", {"checks": 30, "steps": 35, "shards": 8, "timeout": 900, "shrinktime": "30s"},
-                  {"checks": 500, "steps": 60, "shards": 14, "timeout": 5000, "shrinktime": "120s"}),
+                  {"checks": 500, "steps": 60, "shards": 14, "timeout": 7000, "shrinktime": "120s"}),
         ],
     },
     "C01": {
